@@ -159,10 +159,16 @@ def r02_2(ctx):
         pv = pnode[0]
         v = sc.reaching(pv.id, pv) if isinstance(pv, ast.Name) else pv
         found = ast.unparse(v) if v is not None else ast.unparse(pv)
+        # vertcat(p, signals_sampled[cnt])  or  self.pack_p_sys(stage, p, signals_sampled[cnt])  (the layout is R02.7's business)
+        pair = None
         if v is not None and is_call_to(v, "vertcat") and len(v.args) == 2:
-            a0 = n.poly(v.args[0])
+            pair = v.args
+        elif v is not None and is_call_to(v, "pack_p_sys", "self") and len(v.args) == 3 and ast.unparse(v.args[0]) == "stage":
+            pair = v.args[1:]
+        if pair is not None:
+            a0 = n.poly(pair[0])
             okp = a0 == expected("self.get_p_sys(stage,k,include_signals=False)", k=k)
-            s = v.args[1]
+            s = pair[1]
             if okp and isinstance(s, ast.Subscript) and isinstance(s.slice, ast.Name):
                 cnt = s.slice.id
                 ds = sc.defs.get(cnt, [])
